@@ -68,34 +68,33 @@ def parseCase (j : Json) (cache : Bool) : Except String CaseIn := do
             isWrite := (← fStr t "access") == "write", header, rows } : TraceIn))
   pure { cache, tensors, fmts, loopRanks, bindings, traces, ls := (← fNat j "ls") }
 
-/-- model run with the shapes the code computes (`stale`) or the binding's own (`!stale`) -/
-def runBuffet (c : CaseIn) (L : Nat) (cfgs : List BindCfg) (cap : Option Nat) (stale : Bool) :
+def runBuffet (c : CaseIn) (L : Nat) (cfgs : List BindCfg) (cap : Option Nat) :
     List (String × Bool × Nat) × Nat :=
-  let traces := cfgs.map (·.accs stale)
+  let traces := cfgs.map (·.accs)
   let g := buffetRun L (cfgs.map (·.evictEnd)) c.ls cap traces
   (trafficTable c cfgs (fun i => (g.bs.getD i {}).reads) (fun i => (g.bs.getD i {}).writes), g.over)
 
-def specBuffet (c : CaseIn) (cfgs : List BindCfg) (stale : Bool) : List (String × Bool × Nat) :=
-  let traces := cfgs.map (·.accs stale)
+def specBuffet (c : CaseIn) (cfgs : List BindCfg) : List (String × Bool × Nat) :=
+  let traces := cfgs.map (·.accs)
   trafficTable c cfgs
     (fun i => c.ls * fillsSpec ((cfgs.map (·.evictEnd)).getD i 0) (traces.getD i []))
     (fun i => c.ls * writebacksSpec ((cfgs.map (·.evictEnd)).getD i 0) (traces.getD i []))
 
-def runCache (c : CaseIn) (L : Nat) (cfgs : List BindCfg) (cap : Option Nat) (stale : Bool) :
+def runCache (c : CaseIn) (L : Nat) (cfgs : List BindCfg) (cap : Option Nat) :
     Option String × List (String × Bool × Nat) × Nat × Bool :=
-  let traces := cfgs.map (·.accs stale)
+  let traces := cfgs.map (·.accs)
   let s := cacheRun L c.ls cap traces
   (s.failed, trafficTable c cfgs (getAt s.reads) (getAt s.writes), s.over, s.wrongPop)
 
-def specCache (c : CaseIn) (L : Nat) (cfgs : List BindCfg) (cap : Option Nat) (stale : Bool) :
+def specCache (c : CaseIn) (L : Nat) (cfgs : List BindCfg) (cap : Option Nat) :
     List (String × Bool × Nat) :=
-  let traces := cfgs.map (·.accs stale)
+  let traces := cfgs.map (·.accs)
   let s := refCache c.ls cap {} (schedule L traces)
   trafficTable c cfgs (getAt s.reads) (getAt s.writes)
 
 /-- "never below one fill per distinct line touched, never above one per access" on a table -/
 def boundsOk (c : CaseIn) (cfgs : List BindCfg) (t : List (String × Bool × Nat)) : Bool :=
-  let traces := cfgs.map (·.accs false)
+  let traces := cfgs.map (·.accs)
   let lo := trafficTable c cfgs (fun i => c.ls * distinctFirstReads [] (traces.getD i []))
               (fun _ => 0)
   let hi := trafficTable c cfgs (fun i => c.ls * ((traces.getD i []).filter (fun a => !a.isWrite)).length)
@@ -123,9 +122,8 @@ def handle (j : Json) (cache : Bool) : Except String Verdict := do
     let mut why := ""
     let mut models : List Json := []
     let mut tags : List String := [if cache then "cache" else "buffet", s!"bindings={cfgs.length}", s!"L={L}"]
-    let accsT := cfgs.map (·.accs false)
-    let accsS := cfgs.map (·.accs true)
-    if accsT ≠ accsS then tags := tags ++ ["stale-shape-differs"]
+    let accsT := cfgs.map (·.accs)
+    let accsS := cfgs.map (·.accs)
     if cfgs.any (·.hasWrite) then tags := tags ++ ["writes"]
     if accsT.any (fun t => t.any (·.staging)) then tags := tags ++ ["staging"]
     if cfgs.any (fun b => b.epl > 1) then tags := tags ++ ["multi-elem-line"]
@@ -144,21 +142,19 @@ def handle (j : Json) (cache : Bool) : Except String Verdict := do
     if !accsT.all (fun t => stampsSortedB (t.map (·.stamp))) then tags := tags ++ ["unsorted-stamps"]
     let mut prevReads : Option Nat := none
     let mut inWorld := true         -- model(code's shapes) = reference(code's shapes) for every capacity
-    let mut staleMatters := false   -- reference(code's shapes) ≠ reference(true shapes) somewhere
     let mut wrongPop := false
     for (cap, run) in caps.zip runs do
       -- the model, run with the shapes the code computes
       let (merr, mtab, mover, mwp) : Option String × List (String × Bool × Nat) × Nat × Bool :=
-        if cache then runCache c L cfgs cap true
+        if cache then runCache c L cfgs cap
         else
-          let (t, o) := runBuffet c L cfgs cap true
+          let (t, o) := runBuffet c L cfgs cap
           (none, t, o, false)
       -- the specification evaluated on the same (possibly wrong) shapes, and on the true ones
-      let rS := if cache then specCache c L cfgs cap true else specBuffet c cfgs true
-      let stab := if cache then specCache c L cfgs cap false else specBuffet c cfgs false
+      let rS := if cache then specCache c L cfgs cap else specBuffet c cfgs
+      let stab := if cache then specCache c L cfgs cap else specBuffet c cfgs
       if mwp then wrongPop := true
       if merr.isSome || !sameTable mtab rS then inWorld := false
-      if !sameTable rS stab then staleMatters := true
       models := models ++ [Json.mkObj [("cap", match cap with | none => Json.null | some x => jNat x),
         ("err", match merr with | none => Json.null | some e => Json.str e),
         ("traffic", tableJson mtab), ("over", jNat mover), ("spec", tableJson stab)]]
@@ -196,7 +192,6 @@ def handle (j : Json) (cache : Bool) : Except String Verdict := do
     if !inWorld && !wrongPop && tie then tags := tags ++ ["explained:stamp-tie"]
     if !inWorld && !wrongPop && !tie then tags := tags ++ ["MODEL-NOT-SPEC"]
     if cache && hypOk && !inWorld then tags := tags ++ ["THEOREM-CONTRADICTED"]
-    if inWorld && staleMatters then tags := tags ++ ["explained:stale-shape"]
     -- line-granularity: the jittered rerun (first capacity) must charge the same
     match jit, runs.head? with
     | some jr, some fr =>
